@@ -34,12 +34,45 @@ def _selection_ok(comp: ast.ListComp, params: Set[str]) -> Optional[str]:
         txt = src(cond)
         if isinstance(cond, ast.Constant):
             return "selection condition is a constant"
-        mentions_space = f"{pvar}.state_objs" in txt
-        mentions_param = any(isinstance(x, ast.Name) and x.id in params for x in ast.walk(cond))
-        has_member = any(isinstance(x, ast.Compare) and isinstance(x.ops[0], (ast.In, ast.NotIn, ast.Is, ast.Eq)) for x in ast.walk(cond))
-        if not (mentions_space and mentions_param and has_member):
-            return f"selection condition `{txt[:50]}` does not relate {pvar}.state_objs to the addressed subsystems"
+        # a disjunction selects a space as soon as *one* alternative holds: every alternative has to tie the space to the addressed subsystems
+        alts = cond.values if isinstance(cond, ast.BoolOp) and isinstance(cond.op, ast.Or) else [cond]
+        for alt in alts:
+            ta = src(alt)
+            mentions_space = f"{pvar}.state_objs" in ta
+            mentions_param = any(isinstance(x, ast.Name) and x.id in params for x in ast.walk(alt))
+            has_member = any(isinstance(x, ast.Compare) and isinstance(x.ops[0], (ast.In, ast.NotIn, ast.Is, ast.Eq)) for x in ast.walk(alt))
+            if not (mentions_space and mentions_param and has_member):
+                return (f"selection condition `{txt[:50]}` does not relate {pvar}.state_objs to the addressed subsystems" if len(alts) == 1 else
+                        f"the alternative `{ta[:40]}` of the selection condition selects product spaces without relating {pvar}.state_objs to the addressed subsystems")
     return ""
+
+
+def _members_of_selected(fn: ast.AST, e: ast.AST, selected: Dict[str, str]) -> bool:
+    """the expression enumerates the members of membership-selected product spaces:
+    [so for p in SEL for so in p.state_objs]  /  itertools.chain.from_iterable(p.state_objs for p in SEL)  /  chain(*[p.state_objs for p in SEL])"""
+    from ..model import single_defs
+    defs = single_defs(fn)
+
+    def res(x):
+        for _ in range(3):
+            if isinstance(x, ast.Name) and x.id in defs:
+                x = defs[x.id]
+        return x
+    e = res(e)
+    if isinstance(e, (ast.ListComp, ast.GeneratorExp)) and len(e.generators) == 2:
+        g1, g2 = e.generators
+        return isinstance(g1.iter, ast.Name) and selected.get(g1.iter.id) == "" and src(g2.iter) == f"{src(g1.target)}.state_objs" and src(e.elt) == src(g2.target) and not g1.ifs and not g2.ifs
+    if isinstance(e, ast.Call) and (dotted_name(e.func) or "").endswith("chain.from_iterable") and len(e.args) == 1:
+        inner = res(e.args[0])
+        if isinstance(inner, (ast.ListComp, ast.GeneratorExp)) and len(inner.generators) == 1:
+            g = inner.generators[0]
+            return isinstance(g.iter, ast.Name) and selected.get(g.iter.id) == "" and src(inner.elt) == f"{src(g.target)}.state_objs" and not g.ifs
+    if isinstance(e, ast.Call) and (dotted_name(e.func) or "").split(".")[-1] == "chain" and len(e.args) == 1 and isinstance(e.args[0], ast.Starred):
+        inner = res(e.args[0].value)
+        if isinstance(inner, (ast.ListComp, ast.GeneratorExp)) and len(inner.generators) == 1:
+            g = inner.generators[0]
+            return isinstance(g.iter, ast.Name) and selected.get(g.iter.id) == "" and src(inner.elt) == f"{src(g.target)}.state_objs" and not g.ifs
+    return False
 
 
 @rule("BLOCK")
@@ -107,6 +140,8 @@ def block(repo: Repo) -> List[Ob]:
                                 arg_txt = src(m.args[0]) if isinstance(m, ast.Call) and m.args else src(m)
                                 if f"{src(loop.target)}.state_objs" not in arg_txt:
                                     verdict = f"`{inner.id}` is extended with `{arg_txt[:40]}` instead of the members of the selected product space"
+                    continue
+                if _members_of_selected(fn, inner, selected_lists):
                     continue
                 verdict = f"combine() receives `{src(inner)[:50]}`, which is not derived from the addressed subsystems"
             (obs.append(ok("BLOCK", fi, key, props, n, "combine() receives only the addressed subsystems and the members of the product spaces that hold them")) if verdict is None else
